@@ -220,6 +220,10 @@ struct Builder {
   /// Clean up after interrupted commands by deleting output files.
   void Cleanup();
 
+  /// Clean up after an interrupted command of |edge|: delete the outputs it
+  /// may have modified and its depfile.
+  void CleanupEdge(Edge* edge);
+
   Node* AddTarget(const std::string& name, std::string* err);
 
   /// Add a target to the build, scanning dependencies.
